@@ -474,3 +474,24 @@ Definition meas_pc_skip (right : bool) (edges : list Q) (m : mcounts) : pc :=
   {| pc_auto := mc_auto m; pc_counts := mc_counts m;
      pc_w1 := side_weights_skip right edges (mc_s2 m) (mc_s1 m);
      pc_w2 := side_weights_skip right edges (mc_s1 m) (mc_s2 m) |}.
+
+(* ------------------------------------------------ weights that are not positive (C04) *)
+(* A total weight is the sum of whatever the weight column holds: objects masked with weight 0 instead
+   of being removed, weights of both signs.  A populated (bin, patch) cell - a whole patch for a side
+   read without binning - may weigh exactly nothing; it then contributes nothing to the total, and a
+   total that is zero leaves the term undefined (ddiv).
+   A different implementation, for contrast (Proofs: orcount_agrees_weighted, orcount_refuted): the
+   total weight of a cell is taken as "the sum of weights or else the number of objects"
+   (float(sum_weights or num_records): the fallback meant for a catalog WITHOUT weights also catches a
+   sum that is exactly zero).  It agrees with meas_pc on all catalogs in which no populated cell weighs
+   nothing. *)
+Definition cell_weight_or (right binned : bool) (lo hi : Q) (l : list cobj) : Q :=
+  let m := cell_members right binned lo hi l in
+  if Qeqb (weight_of m) 0 then qn (length m) else weight_of m.
+Definition side_weights_or (right : bool) (edges : list Q) (s : side) : list (list Q) :=
+  map (fun lh => map (cell_weight_or right (sd_binned s) (fst lh) (snd lh)) (sd_patches s)) (bin_bounds edges).
+Definition meas_pc_or (right : bool) (edges : list Q) (m : mcounts) : pc :=
+  {| pc_auto := mc_auto m; pc_counts := mc_counts m;
+     pc_w1 := side_weights_or right edges (mc_s1 m); pc_w2 := side_weights_or right edges (mc_s2 m) |}.
+(* the records that carry weight *)
+Definition weighted (l : list cobj) : list cobj := filter (fun o => negb (Qeqb (snd o) 0)) l.
